@@ -6,23 +6,28 @@ import NitroVerif.Generated.MtSinks
 namespace NitroVerif.Drv.MT
 open NitroVerif.MT
 
-def progOf (sink : String) : List Instr :=
-  if sink = "o" then Generated.stdoutSink else Generated.stderrSink
+def progsOf (sink : String) : List (List Instr) :=
+  if sink = "o" then Generated.stdoutSinkBySev else Generated.stderrSinkBySev
 
-/-- record k of thread t: [t+1, k+1, payload…, 0]; payload length varies with (t, k) -/
-def record (t k : Nat) : Rec :=
-  [t + 1, k + 1] ++ List.replicate ((t * 7 + k * 3) % 9) (((t + k) % 200) + 1) ++ [0]
+def progOf (sink : String) : Rec → List Instr := sinkProg (progsOf sink)
 
-def recsOf (n r : Nat) : Nat → List Rec := fun t => if t < n then (List.range r).map (record t) else []
+def sevMode (t k mode : Nat) : Nat :=
+  if mode ≤ 5 then mode else if mode = 6 then (5 * t + k) % 6 else (if t = 0 then 5 else k % 5)
+
+/-- record k of thread t: [t+1, k+1, sev+1, payload…, 0]; payload length varies with (t, k) -/
+def record (mode t k : Nat) : Rec :=
+  [t + 1, k + 1, sevMode t k mode + 1] ++ List.replicate ((t * 7 + k * 3) % 9) (((t + k) % 200) + 1) ++ [0]
+
+def recsOf (mode n r : Nat) : Nat → List Rec := fun t => if t < n then (List.range r).map (record mode t) else []
 
 def splitZero : List Nat → List Nat → List (List Nat)
   | [], cur => if cur.isEmpty then [] else [cur.reverse]   -- an unterminated rest counts as a (torn) line
   | b :: bs, cur => if b = 0 then (cur.reverse ++ [0]) :: splitZero bs [] else splitZero bs (b :: cur)
 
 /-- judge an output stream: whole records only, each once, per-thread order -/
-def verdict (n r : Nat) (out : List Nat) (concurrent : Bool) : String :=
+def verdict (mode n r : Nat) (out : List Nat) (concurrent : Bool) : String :=
   let lines := splitZero out []
-  let expected := (List.range n).flatMap fun t => (List.range r).map (record t)
+  let expected := (List.range n).flatMap fun t => (List.range r).map (record mode t)
   let torn := (lines.filter fun l => !expected.contains l).length
   let lost := (expected.filter fun e => !lines.contains e).length
   let dup := (expected.filter fun e => (lines.filter (· == e)).length > 1).length
@@ -37,7 +42,7 @@ def lcg (x : Nat) : Nat := (x * 6364136223846793005 + 1442695040888963407) % 184
 
 /-- run under a pseudo-random schedule until everything is done (or the fuel is gone); also watch
 whether two threads are ever inside the stream together -/
-def simulate (prog : List Instr) (n : Nat) : Nat → Nat → Sys → Bool → Sys × Bool
+def simulate (prog : Rec → List Instr) (n : Nat) : Nat → Nat → Sys → Bool → Sys × Bool
   | 0, _, s, c => (s, c)
   | fuel + 1, x, s, c =>
     if (List.range n).all (fun t => (s.threads t).todo.isEmpty) then (s, c)
@@ -48,35 +53,54 @@ def simulate (prog : List Instr) (n : Nat) : Nat → Nat → Sys → Bool → Sy
       let inside := ((List.range n).filter fun k => inStream prog s' k).length
       simulate prog n fuel x' s' (c || inside > 1)
 
+/-- run thread `i` until its next instruction is a flush or the end of the body (it is then inside
+the flush the stream performs, still before the end of the body) -/
+def runToFlush (P : Rec → List Instr) (i : Nat) : Nat → Sys → Sys
+  | 0, s => s
+  | fuel + 1, s =>
+    match (s.threads i).todo with
+    | [] => s
+    | r :: _ =>
+      match (P r)[(s.threads i).pc]? with
+      | none => s
+      | some .flush => s
+      | some .lock => if s.holder = none then runToFlush P i fuel (step P s i) else s
+      | _ => runToFlush P i fuel (step P s i)
+
 def model (f : List String) : String :=
   match f with
-  | ["turn", sink, _rep, _build] =>
-    let prog := progOf sink
-    let recs : Nat → List Rec := fun t => if t = 0 then [[1, 1, 1, 0]] else if t = 1 then [[2, 2, 2, 0]] else []
-    -- thread 0 takes the lock and hands the first byte to the stream, where it is parked
-    let s0 := runs prog (init recs) [0, 0]
-    -- thread 1 is scheduled again and again
-    let s1 := runs prog s0 (List.replicate 12 1)
-    let entered := s1.out.contains 2
-    "blocked=" ++ (if entered then "0" else "1") ++ " concurrent=" ++ (if entered then "1" else "0")
-  | ["stress", sink, n, r, seed, _build] =>
-    match n.toNat?, r.toNat?, seed.toNat? with
-    | some n, some r, some seed =>
+  | ["turn", sink, sevA, sevB, park, _rep, _build] =>
+    match sevA.toNat?, sevB.toNat? with
+    | some sevA, some sevB =>
       let prog := progOf sink
-      let (s, c) := simulate prog n (n * n * r * 60 + 2000) seed (init (recsOf n r)) false
-      verdict n r s.out c
-    | _, _, _ => "bad-op"
+      let recs : Nat → List Rec := fun t =>
+        if t = 0 then [record sevA 0 0] else if t = 1 then [record sevB 1 0] else []
+      -- thread 0 is parked inside the stream: after its first byte (w) or in its flush (s)
+      let s0 := if park = "s" then runToFlush prog 0 64 (init recs) else runs prog (init recs) [0, 0]
+      -- thread 1 is scheduled again and again
+      let s1 := runs prog s0 (List.replicate 24 1)
+      let entered := (s1.threads 1).wpos > 0 || (s1.threads 1).todo.isEmpty || inStream prog s1 1
+      "parked=1 blocked=" ++ (if entered then "0" else "1") ++ " concurrent=" ++ (if entered then "1" else "0")
+    | _, _ => "bad-op"
+  | ["stress", sink, n, r, mode, seed, _build] =>
+    match n.toNat?, r.toNat?, mode.toNat?, seed.toNat? with
+    | some n, some r, some mode, some seed =>
+      let prog := progOf sink
+      let (s, c) := simulate prog n (n * n * r * 60 + 2000) seed (init (recsOf mode n r)) false
+      verdict mode n r s.out c
+    | _, _, _, _ => "bad-op"
   | _ => "bad-op"
 
 def judge (f : List String) (ans : String) : String :=
   match f with
-  | ["turn", _sink, _rep, _build] =>
-    if ans = "blocked=1 concurrent=0" then "ok\tturnstile nt" else "bad:" ++ ans ++ "\tturnstile nt"
-  | ["stress", _sink, n, r, _seed, build] =>
+  | ["turn", _sink, sevA, sevB, park, _rep, _build] =>
+    let feat := "\tturnstile park-" ++ park ++ " sev" ++ sevA ++ "-" ++ sevB ++ " nt"
+    if ans = "parked=1 blocked=1 concurrent=0" then "ok" ++ feat else "bad:" ++ ans ++ feat
+  | ["stress", _sink, n, r, mode, _seed, build] =>
     match n.toNat?, r.toNat? with
     | some n, some r =>
       let want := "records=" ++ toString (n * r) ++ " concurrent=0 torn=0 lost=0 dup=0 order=1"
-      let feat := "\tstress-" ++ build ++ " threads" ++ toString n ++ (if n ≥ 2 then " nt" else "")
+      let feat := "\tstress-" ++ build ++ " threads" ++ toString n ++ " sevmode" ++ mode ++ (if n ≥ 2 then " nt" else "")
       if ans = want then "ok" ++ feat else "bad:" ++ ans ++ feat
     | _, _ => "bad-op"
   | _ => "bad-op"
